@@ -624,7 +624,36 @@ func (m *Machine) appendOp(it *Item, cc *ssa.CallCommon, args []Value) Value {
 		}
 		return SliceV{nb, m.IntC(sl + n), m.IntC(nc)}
 	}
-	// symbolic length: in-place append into the physical backing array
+	// symbolic length/capacity: case-split on the feasible concrete (len, cap) pairs
+	if m.appendDepth == 0 {
+		lens := m.possibleInts(it, s.Len)
+		if len(lens) > 0 && len(lens) <= 12 {
+			m.appendDepth++
+			defer func() { m.appendDepth-- }()
+			var res Value
+			for i := len(lens) - 1; i >= 0; i-- {
+				gk := c.Eq(s.Len, m.IntC(lens[i]))
+				sub := &Item{G: c.And(it.G, gk), F: it.F, Gor: it.Gor, Clock: it.Clock}
+				sk := m.Restrict(sub.G, s).(SliceV)
+				sk.Len = m.IntC(lens[i])
+				if _, ok := sk.Cap.Int64(); !ok {
+					caps := m.possibleInts(sub, sk.Cap)
+					if len(caps) == 1 {
+						sk.Cap = m.IntC(caps[0])
+					} else if len(sk.Base.Alts) == 0 {
+						sk.Cap = m.IntC(0)
+					}
+				}
+				r := m.appendOp(sub, cc, []Value{sk, args[1]})
+				if res == nil {
+					res = r
+				} else {
+					res = m.Merge(gk, r, res)
+				}
+			}
+			return res
+		}
+	}
 	if nilBase {
 		m.fail("append to nil slice with symbolic length")
 	}
